@@ -21,6 +21,7 @@ import re
 from .tlaval import parse_state
 from . import build as B
 from . import observe as O
+from . import members as MB
 
 DECOYS = ('k', '5', ' ', '\n')
 _SHORTHAND_EXTRA = re.compile(r'[\d\s]')
@@ -62,7 +63,33 @@ def nontrivial(prop, st):
     return st['d'] > 0
 
 
-def observe_case(term, sp, res, deep=False):
+def guarded(term, sp, res, deep, limit=20):
+    """observe_case in a forked child with an alarm: programs outside the bounds of the exhaustive instances (large
+    repetition counts) can make CPython's re backtrack for hours on a five-character text; such a case gets no verdict."""
+    import os
+    import pickle
+    import signal
+    r, w = os.pipe()
+    pid = os.fork()
+    if pid == 0:
+        try:
+            os.close(r)
+            signal.alarm(limit)
+            out = observe_case(term, sp, res, deep, True)
+            with os.fdopen(w, 'wb') as fh:
+                pickle.dump(out, fh)
+        finally:
+            os._exit(0)
+    os.close(w)
+    with os.fdopen(r, 'rb') as fh:
+        data = fh.read()
+    os.waitpid(pid, 0)
+    if not data:
+        return [], {'outcome': 'skipped-explosive'}
+    return pickle.loads(data)
+
+
+def observe_case(term, sp, res, deep=False, members=False):
     """Execute one (term, spelling); return (facet failures list, info)."""
     fails = []
     info = {}
@@ -115,8 +142,26 @@ def observe_case(term, sp, res, deep=False):
         fails.append(('emptytext', {'emitted': emitted}))
     if not res['refsdef']:
         return fails, info
+    if members and MB.explosive(res['ref']):
+        info['outcome'] = 'skipped-explosive'
+        try:
+            re.compile(res['ref'], O.FLAGS)
+        except (re.error, RecursionError):
+            info['outcome'] = 'ok-ref-uncompilable'
+            return fails, info
+        try:
+            re.compile(emitted, O.FLAGS)
+        except re.error as e:
+            fails.append(('compile', {'emitted': emitted, 'error': str(e)}))
+        except RecursionError:
+            pass
+        return fails, info
     ci = '(?i:' in res['ref']
     uni = uni_for(term, ci, deep)
+    if members:
+        extra = MB.texts_for(res['ref'])
+        if extra:
+            uni = ((uni[0], 'members', extra), uni[1] + tuple(t for t in extra if t not in set(uni[1])))
     try:
         tr = O.table(res['ref'], uni)
     except re.error:
@@ -201,7 +246,10 @@ def judge(payload, params):
                                      'expected': {'ok': res['ok'], 'ex': sorted(res['ex']), 'ref': res['ref'], 'caps': list(res['caps'])}})
         for sp in B.spellings(term):
             stats['cases'] += 1
-            fails, info = observe_case(term, sp, res, params.get('deep', False))
+            if params.get('members'):
+                fails, info = guarded(term, sp, res, params.get('deep', False))
+            else:
+                fails, info = observe_case(term, sp, res, params.get('deep', False), False)
             only = params.get('only_ex')
             if only:
                 fails = [(f, d) for f, d in fails
@@ -209,7 +257,7 @@ def judge(payload, params):
                          or (f in ('exc', 'accepted') and (d.get('observed') == only or only in d.get('expected_ex', ())))
                          or f not in ('exc', 'accepted', 'crash')]
             oc = info.get('outcome')
-            stats['outcome:' + (oc if oc in ('ok', 'skipped', 'ok-ref-uncompilable') else 'raise')] += 1
+            stats['outcome:' + (oc if oc in ('ok', 'skipped', 'ok-ref-uncompilable', 'skipped-explosive') else 'raise')] += 1
             if info.get('calibrated'):
                 stats['calibrated'] += 1
             if 'drift_type' in info:
